@@ -490,10 +490,25 @@ def suspend_scenario(draw):
             ya["acts"].append({"kind": "go", "far": pre + "b", "needs": [geq(t2 + d2)]})
             fr2["frames"].append({"name": pre + "b", "over": None, "acts": [{"kind": "done", "targets": ["me"]}]})
         auxes.append(fr2)
+    outside = None
+    if extra == "stack" and plan and draw(st.integers(0, 2)) == 0:
+        # the conditional aux of the topmost frame of the stack is marked done from OUTSIDE (another framer's `done`)
+        # while the lower ones still run: the outline stays cut at the topmost still running one
+        top = members[-1]
+        topaux = "x0" if top == main else "x%d" % (1 + [p_[0] for p_ in plan].index(top))
+        for fr_ in auxes:
+            if fr_["name"] == topaux and len(fr_["frames"]) > 1:
+                # keep it running until the outside done arrives
+                fr_["frames"][0]["acts"] = [a_ for a_ in fr_["frames"][0]["acts"] if a_.get("kind") != "go"]
+        td = max([t_start] + [p_[1] for p_ in plan]) + draw(st.integers(1, 3))
+        outside = {"name": "m2", "sched": "active", "order": draw(st.sampled_from(["front", "back", None])), "period": None,
+                   "first": None, "frames": [
+                       {"name": "q0", "over": None, "acts": [{"kind": "go", "far": "q1", "needs": [geq(td)]}]},
+                       {"name": "q1", "over": None, "acts": [{"kind": "done", "targets": [topaux]}]}]}
     framers = [{"name": "drv", "sched": "active", "order": "front", "period": None, "first": None,
                 "frames": [{"name": "drva", "over": None, "acts": [{"kind": "inc", "dst": ".n.a", "val": 1, "ctx": "recur"}]}]},
                {"name": "m0", "sched": "active", "order": None, "period": None, "first": first,
-                "frames": [frames[n] for n in order]}] + auxes
+                "frames": [frames[n] for n in order]}] + auxes + ([outside] if outside else [])
     if others:
         kf = []
         for i, o in enumerate(others):
@@ -563,6 +578,36 @@ def cond_scenarios(draw):
 
 
 @st.composite
+def aux_with_cond_scenario(draw):
+    """Directed family for plain auxiliaries: the plain aux A of main frame M has an outline of two levels whose upper
+    frame runs a conditional aux C (long lived), so that A's lower frame (with a nested plain aux B) is suspended - and
+    M is left (and entered again) at drawn ticks while that is the case: A, and everything entered below it, must be
+    fully exited with M."""
+    geq = lambda k: {"kind": "cmp", "state": ".n.a", "op": ">=", "goal": k, "neg": False}
+    rec = lambda k: {"kind": "recurred", "op": ">=", "goal": k, "neg": False}
+    obs = lambda ctx, p: {"kind": "inc", "dst": p, "val": 1, "ctx": ctx}
+    t0, t1 = draw(st.integers(1, 4)), draw(st.integers(2, 8))
+    A = {"name": "x0", "sched": "aux", "order": None, "period": None, "first": None, "frames": [
+        {"name": "a0", "over": None, "acts": [obs("enter", ".n.b"), {"kind": "aux", "name": "x2", "needs": [geq(t0)]}, obs("exit", ".n.b")]},
+        {"name": "a1", "over": "a0", "acts": [obs("recur", ".n.c"), {"kind": "aux", "name": "x1", "needs": []}, obs("exit", ".n.c")]}]}
+    B = {"name": "x1", "sched": "aux", "order": None, "period": None, "first": None, "frames": [
+        {"name": "b0", "over": None, "acts": [obs("enter", ".n.c"), obs("exit", ".n.c")]}]}
+    cacts = [obs("recur", ".n.b")]
+    if draw(st.booleans()):
+        cacts.append({"kind": "go", "far": "c1", "needs": [rec(draw(st.integers(2, 6)))]})
+    C = {"name": "x2", "sched": "aux", "order": None, "period": None, "first": None, "frames": [
+        {"name": "c0", "over": None, "acts": cacts}, {"name": "c1", "over": None, "acts": [{"kind": "done", "targets": ["me"]}]}]}
+    drv = {"name": "drv", "sched": "active", "order": "front", "period": None, "first": None,
+           "frames": [{"name": "drva", "over": None, "acts": [{"kind": "inc", "dst": ".n.a", "val": 1, "ctx": "recur"}]}]}
+    M = {"name": "m0", "sched": "active", "order": None, "period": None, "first": None, "frames": [
+        {"name": "M", "over": None, "acts": [{"kind": "aux", "name": "x0", "needs": []}, {"kind": "go", "far": "N", "needs": [geq(t1)]}]},
+        {"name": "N", "over": None, "acts": [{"kind": "go", "far": "M", "needs": [rec(draw(st.integers(1, 2)))]}]}]}
+    if draw(st.integers(0, 2)) == 0:
+        M["frames"][0]["acts"][1] = {"kind": "bid", "verb": "stop", "targets": ["me"], "ctx": "recur"} if draw(st.booleans()) else M["frames"][0]["acts"][1]
+    return {"period": "0.125", "ticks": draw(st.integers(8, 16)), "inits": [[p, 0] for p in NUM], "framers": [drv, M, A, B, C]}
+
+
+@st.composite
 def owner_stays_scenario(draw):
     """Directed family for the ownership clause: an original aux x0 is listed by a frame that stays entered (an over
     frame common to near and far, or a frame of another running framer) and by a second frame that the framer keeps
@@ -605,9 +650,44 @@ def owner_stays_scenario(draw):
 
 
 @st.composite
+def refused_while_suspended_scenario(draw):
+    """Directed family: while a conditional aux of frame mid runs (frames below mid suspended), a frame above mid
+    keeps attempting a transition whose target is refused by its entry guard: the refusal must leave everything as it
+    is - in particular the truncated active outline and the suspension of the lower frames."""
+    geq = lambda k: {"kind": "cmp", "state": ".n.a", "op": ">=", "goal": k, "neg": False}
+    rec = lambda k: {"kind": "recurred", "op": ">=", "goal": k, "neg": False}
+    obs = lambda ctx, p: {"kind": "inc", "dst": p, "val": 1, "ctx": ctx}
+    t0 = draw(st.integers(1, 3))
+    ta = t0 + draw(st.integers(0, 3))
+    tg = ta + draw(st.integers(1, 5))
+    xa = {"name": "xa", "over": None, "acts": [obs("recur", ".n.b")]}
+    xfr = [xa]
+    d = draw(st.sampled_from([None, None, 4, 7]))
+    if d is not None:
+        xa["acts"].append({"kind": "go", "far": "xb", "needs": [geq(t0 + d)]})
+        xfr.append({"name": "xb", "over": None, "acts": [{"kind": "done", "targets": ["me"]}]})
+    where = draw(st.sampled_from(["top", "top", "mid"]))
+    attempt = {"kind": "go", "far": "blocked", "needs": [geq(ta)]}
+    top = {"name": "top", "over": None, "acts": [obs("recur", ".n.c")] + ([attempt] if where == "top" else [])}
+    mid = {"name": "mid", "over": "top", "acts": ([attempt] if where == "mid" else []) +
+           [{"kind": "aux", "name": "x0", "needs": [geq(t0)]}, obs("recur", ".n.c")]}
+    low = {"name": "low", "over": "mid", "acts": [obs("enter", ".n.c"), obs("recur", ".n.c"), obs("exit", ".n.c")]}
+    blocked = {"name": "blocked", "over": None, "acts": [{"kind": "let", "needs": [geq(tg)]}, obs("enter", ".n.b"),
+                                                         {"kind": "go", "far": draw(st.sampled_from(["top", "low", "mid"])), "needs": [rec(1)]}]}
+    drv = {"name": "drv", "sched": "active", "order": "front", "period": None, "first": None,
+           "frames": [{"name": "drva", "over": None, "acts": [{"kind": "inc", "dst": ".n.a", "val": 1, "ctx": "recur"}]}]}
+    m0 = {"name": "m0", "sched": "active", "order": None, "period": None, "first": None, "frames": [top, mid, low, blocked]}
+    x0 = {"name": "x0", "sched": "aux", "order": None, "period": None, "first": None, "frames": xfr}
+    return {"period": "0.125", "ticks": draw(st.integers(8, 16)), "inits": [[p, 0] for p in NUM], "framers": [drv, m0, x0]}
+
+
+@st.composite
 def guard_family(draw):
-    if draw(st.integers(0, 3)) == 0:
+    k = draw(st.integers(0, 5))
+    if k == 0:
         return draw(owner_stays_scenario())
+    if k == 1:
+        return draw(refused_while_suspended_scenario())
     return draw(guard_scenario())
 
 
